@@ -1,5 +1,6 @@
 import FtdcVerif.Lemmas.Collector
 import FtdcVerif.Lemmas.ChopE2E
+import FtdcVerif.Props.C07
 /-!
 # C08 — schema changes split chunks exactly and never corrupt, reject or drop samples
 
@@ -350,7 +351,7 @@ structure GD (c : Dynamic) (groups : List (List BDoc)) : Prop where
   inv : ∀ b ∈ c.chunks, b.Inv ∧ b.maxSamples = c.maxSamples
   one : ∀ g ∈ groups, OneHash g
   last : ∀ h, c.hash = some h → ∀ g, groups.getLast? = some g → ∀ d ∈ g, (schemaKey d).1 = h.1
-  fresh : c.hash = none → c.chunks = [Batch.new c.maxSamples] ∧ groups = [[]]
+  fresh : c.hash = none → ∃ b, c.chunks = [b] ∧ b.samples = [] ∧ groups = [[]]
   ne : c.chunks ≠ []
 
 theorem map_eq_concat {α β γ : Type} (f : α → γ) (g : β → γ) (init : List α) (last : α) (l : List β)
@@ -382,6 +383,45 @@ theorem batch_fresh_add (n : Nat) (hn : 1 ≤ n) (d : BDoc) :
   · rw [Batch.add_ok_appends _ d hi hok, batch_new_samples]; rfl
   · unfold Batch.add Batch.new; simp; split <;> rfl
 
+/-- a batch collector that holds nothing accepts a document like a fresh one (whatever its metadata) -/
+theorem batch_empty_add (b : Batch) (d : BDoc) (hi : b.Inv) (he : b.samples = []) :
+    (b.add d).2 = .ok ∧ (b.add d).1.samples = [valsOf d] := by
+  have hok : (b.add d).2 = .ok := by
+    -- one chunk, without a reference document
+    obtain ⟨hpos, hne, heach, hfull⟩ := hi
+    rcases List.eq_nil_or_concat b.chunks with h0 | ⟨init, last, hx⟩
+    · exact absurd h0 hne
+    · have hx' : b.chunks = init ++ [last] := by simpa using hx
+      have hinit : init = [] := by
+        cases init with
+        | nil => rfl
+        | cons x r =>
+          have hxm : x ∈ b.chunks.dropLast := by
+            rw [hx', List.dropLast_append_of_ne_nil (by simp)]; simp
+          have hlen := hfull x hxm
+          have : x.samples = [] := by
+            have hs : (b.chunks.map Better.samples).flatten = [] := he
+            rw [hx'] at hs
+            simp only [List.map_append, List.map_cons, List.flatten_append, List.flatten_cons, List.append_eq_nil_iff] at hs
+            exact hs.1.1
+          rw [this] at hlen; simp at hlen; omega
+      subst hinit
+      have hlast : last.samples = [] := by
+        have hs : (b.chunks.map Better.samples).flatten = [] := he
+        rw [hx'] at hs; simpa using hs
+      have hl : b.chunks.getLast? = some last := by rw [hx']; simp
+      have hlm := heach last (by rw [hx']; simp)
+      have href : last.ref = none := by
+        cases hr : last.ref with
+        | none => rfl
+        | some r => simp [Better.samples, hr] at hlast
+      have hrows : last.rows = [] := (hlm.1.1 href).1
+      unfold Batch.add
+      simp only [hl, Better.info, href, hrows]
+      have h0 : ¬ (0 + 0 ≥ b.maxSamples) := by omega
+      simp [h0, Better.add, href]
+  exact ⟨hok, by rw [Batch.add_ok_appends b d hi hok, he]; rfl⟩
+
 theorem batch_add_maxSamples (b : Batch) (d : BDoc) : (b.add d).1.maxSamples = b.maxSamples := by
   unfold Batch.add
   split
@@ -409,9 +449,12 @@ theorem gd_step (c : Dynamic) (groups : List (List BDoc)) (d : BDoc) (g : GD c g
       groups'.flatten = groups.flatten ++ (if (c.add d).2 = .ok then [d] else []) := by
   cases hh : c.hash with
   | none =>
-    obtain ⟨hc, hg⟩ := g.fresh hh
+    obtain ⟨b0, hc, he, hg⟩ := g.fresh hh
     rw [dyn_add_none c d hh _ [] hc]
-    obtain ⟨f1, f2, f3, f4⟩ := batch_fresh_add c.maxSamples g.pos d
+    have hb0 := g.inv b0 (by rw [hc]; simp)
+    obtain ⟨f1, f2⟩ := batch_empty_add b0 d hb0.1 he
+    have f3 := Batch.add_inv b0 d hb0.1
+    have f4 : (b0.add d).1.maxSamples = c.maxSamples := by rw [batch_add_maxSamples]; exact hb0.2
     refine ⟨[[d]], ⟨g.pos, by simp [f2], ?_, ?_, ?_, by intro h; simp at h, by simp⟩, by simp [hg, f1]⟩
     · intro b hb; simp at hb; subst hb; exact ⟨f3, f4⟩
     · intro x hx; simp at hx; subst hx; exact ⟨(schemaKey d).1, by simp⟩
@@ -512,7 +555,7 @@ theorem dynamic_batches_have_one_schema (n : Nat) (hn : 1 ≤ n) (ds : List BDoc
     ⟨hn, by simp [Dynamic.new, batch_new_samples], by
       intro b hb; simp [Dynamic.new] at hb; subst hb; exact ⟨Batch.new_inv n hn, rfl⟩,
      by intro g hg; simp at hg; subst hg; exact ⟨[], by simp⟩,
-     by intro h hh; simp [Dynamic.new] at hh, fun _ => ⟨rfl, rfl⟩, by simp [Dynamic.new]⟩
+     by intro h hh; simp [Dynamic.new] at hh, fun _ => ⟨Batch.new n, rfl, batch_new_samples n, rfl⟩, by simp [Dynamic.new]⟩
   obtain ⟨groups, g, hf⟩ := this ds _ [] [[]] g0 (by simp)
   exact ⟨groups, g.rows, g.one, hf⟩
 
@@ -555,5 +598,84 @@ example : AdjDiff [(.cons [97] (.int64 5#64) .nil, [.cons [97] (.int64 6#64) .ni
 /-! non-vacuity -/
 example : NulFree (.cons [97] (.doc (.cons [98] (.int64 1#64) .nil)) (.cons [99] (.int64 2#64) .nil)) := by
   simp [NulFree, NulFreeVal]
+
+open Ftdc.Props.C07 in
+/-! ### the dynamic collector over whole histories -/
+
+def stepD (acc : Dynamic × List BDoc) : COp → Dynamic × List BDoc
+  | .add d => addLogD acc d
+  | .reset => (acc.1.reset, [])
+  | .setMeta d => (acc.1.setMetadata d, acc.2)
+  | _ => acc
+
+open Ftdc.Props.C07 in
+theorem gd_setMetadata (c : Dynamic) (groups : List (List BDoc)) (d : BDoc) (g : GD c groups) :
+    GD (c.setMetadata d) groups := by
+  unfold Dynamic.setMetadata
+  cases hc : c.chunks with
+  | nil => exact absurd hc g.ne
+  | cons b r =>
+    have hb := g.inv b (by rw [hc]; simp)
+    obtain ⟨hi', hs'⟩ := batch_setMetadata_inv b d hb.1
+    have hm' : (b.setMetadata d).maxSamples = b.maxSamples := by
+      unfold Batch.setMetadata; split <;> rfl
+    refine ⟨g.pos, ?_, ?_, g.one, g.last, ?_, by simp⟩
+    · have := g.rows; rw [hc] at this
+      simpa [hs'] using this
+    · intro x hx
+      simp only [List.mem_cons] at hx
+      rcases hx with rfl | hx
+      · exact ⟨hi', by rw [hm']; exact hb.2⟩
+      · exact g.inv x (by rw [hc]; simp [hx])
+    · intro hh
+      obtain ⟨b0, h1, h2, h3⟩ := g.fresh hh
+      rw [hc] at h1
+      simp only [List.cons.injEq] at h1
+      obtain ⟨rfl, rfl⟩ := h1
+      exact ⟨b.setMetadata d, rfl, by rw [hs']; exact h2, h3⟩
+
+/-- **C07/C08 for the dynamic collector over whole histories** (Add, unreadable Add, Reset, SetMetadata, Resolve, Info
+in any order): one batch collector per run of one schema key, together holding exactly the documents accepted since the
+last `Reset`, once each and in order -/
+theorem dynamic_faithful_all_histories (n : Nat) (hn : 1 ≤ n) (ops : List COp) :
+    ∃ groups : List (List BDoc),
+      let r := ops.foldl stepD (Dynamic.new n, [])
+      r.1.chunks.map Batch.samples = groups.map (·.map valsOf) ∧ (∀ g ∈ groups, OneHash g) ∧
+      groups.flatten = r.2 := by
+  have g0 : ∀ m, 1 ≤ m → GD (Dynamic.new m) [[]] := fun m hm =>
+    ⟨hm, by simp [Dynamic.new, batch_new_samples], by
+      intro b hb; simp [Dynamic.new] at hb; subst hb; exact ⟨Batch.new_inv m hm, rfl⟩,
+     by intro g hg; simp at hg; subst hg; exact ⟨[], by simp⟩,
+     by intro h hh; simp [Dynamic.new] at hh, fun _ => ⟨Batch.new m, rfl, batch_new_samples m, rfl⟩, by simp [Dynamic.new]⟩
+  have step : ∀ (op : COp) (c : Dynamic) (acc : List BDoc) (groups : List (List BDoc)), GD c groups →
+      groups.flatten = acc →
+      ∃ groups', GD (stepD (c, acc) op).1 groups' ∧ groups'.flatten = (stepD (c, acc) op).2 := by
+    intro op c acc groups g h
+    cases op with
+    | add d =>
+      obtain ⟨groups', g', hf⟩ := gd_step c groups d g
+      refine ⟨groups', g', ?_⟩
+      show _ = (if (c.add d).2 = .ok then acc ++ [d] else acc)
+      rw [hf, h]; by_cases hok : (c.add d).2 = .ok <;> simp [hok]
+    | reset => exact ⟨[[]], g0 c.maxSamples g.pos, by simp [stepD]⟩
+    | setMeta d => exact ⟨groups, gd_setMetadata c groups d g, h⟩
+    | addBad => exact ⟨groups, g, h⟩
+    | resolve => exact ⟨groups, g, h⟩
+    | info => exact ⟨groups, g, h⟩
+  have : ∀ (ops : List COp) (c : Dynamic) (acc : List BDoc) (groups : List (List BDoc)), GD c groups →
+      groups.flatten = acc →
+      ∃ groups', GD (ops.foldl stepD (c, acc)).1 groups' ∧ groups'.flatten = (ops.foldl stepD (c, acc)).2 := by
+    intro ops
+    induction ops with
+    | nil => intro c acc groups g h; exact ⟨groups, g, h⟩
+    | cons op ops ih =>
+      intro c acc groups g h
+      obtain ⟨groups', g', hf⟩ := step op c acc groups g h
+      simp only [List.foldl_cons]
+      have e : stepD (c, acc) op = ((stepD (c, acc) op).1, (stepD (c, acc) op).2) := rfl
+      rw [e]
+      exact ih _ _ groups' g' hf
+  obtain ⟨groups, g, hf⟩ := this ops _ [] [[]] (g0 n hn) (by simp)
+  exact ⟨groups, g.rows, g.one, hf⟩
 
 end Ftdc.Props.C08
